@@ -292,9 +292,11 @@ class Ctx:
         maxp = NPROC
 
         def launch(i):
+            # output goes to FILES: a pipe that nobody drains blocks coqc once it has written 64 KB (one "large number" warning per literal was enough in
+            # the thorough tier: the evaluation sat there until its timeout and was reported as a broken tie)
             return subprocess.Popen(
-                ["bash", "-c", f"ulimit -s unlimited 2>/dev/null; exec timeout {timeout} coqc -Q {COQ} V {files[i]}"],
-                stdout=subprocess.PIPE, stderr=subprocess.PIPE, text=True, cwd=self.work)
+                ["bash", "-c", f"ulimit -s unlimited 2>/dev/null; exec timeout {timeout} coqc -Q {COQ} V {files[i]} > {files[i]}.out 2> {files[i]}.err"],
+                cwd=self.work)
 
         pending = list(range(len(files)))
         running = {}
@@ -304,7 +306,8 @@ class Ctx:
                 running[i] = launch(i)
             for i, pr in list(running.items()):
                 if pr.poll() is not None:
-                    o, e = pr.communicate()
+                    o = open(files[i] + ".out", errors="replace").read()
+                    e = open(files[i] + ".err", errors="replace").read()
                     results[i] = (pr.returncode, o, e)
                     del running[i]
             time.sleep(0.02)
